@@ -116,6 +116,22 @@ def run_oracle(ck, fmt_keywords):
     fixed += [("oracle-pool", p.replace(" | ", "\n")) for p in POOL if "\n" not in p]
     fixed += [("oracle-adjacency", "from t\nselect {v = %s}\n" % a) for a in G.ADJACENCY]
     fixed += [("oracle-adjacency", "let v = %s\n" % a) for a in G.ADJACENCY]
+    # every keyword / literal word as alias, parameter name and identifier (write_ident_part / display_ident_part)
+    for kw in G.KEYWORD_IDS:
+        fixed.append(("oracle-keyword-idents", "from t\nselect {`%s` = 1}\n" % kw))
+        fixed.append(("oracle-keyword-idents", "let f = func `%s` -> 1\n" % kw))
+        fixed.append(("oracle-keyword-idents", "from t\nselect {x = `%s`}\n" % kw))
+        fixed.append(("oracle-keyword-idents", "from t\nselect {x = t.`%s`.a}\n" % kw))
+    # every literal kind, twice (the second one exercises Display of what the first produced)
+    for kinds in (["int"], ["float"], ["float0"], ["floatbig"], ["string"], ["raw"], ["date"], ["time"], ["timestamp"], ["unit"], ["bool"], ["null"], ["based"], ["under"], ["exp"]):
+        seen = set()
+        for _ in range(40):
+            lit = G.gen_literal(rng, kinds)[2]
+            if lit not in seen:
+                seen.add(lit)
+                fixed.append(("oracle-literals", "from t\nselect {x = %s}\n" % lit))
+    for s in G.STRINGS:
+        fixed.append(("oracle-literals", "from t\nfilter s == %s\n" % G.str_lit(s)))
     for f in ck.findings:
         r = f.get("replay", {})
         for s in ([r["src"]] if "src" in r else []) + list(r.get("srcs", [])):
@@ -124,21 +140,21 @@ def run_oracle(ck, fmt_keywords):
     # exhaustive (parent, side, child) triples at depth 2 and sampled depth-3 chains
     for key, e in G.triples():
         streams.append(("oracle-triples", "from t\nselect {v = %s}\n" % G.src(e)))
-    for key, e in G.quads(rng, ck.n(1500, 12000)):
+    for key, e in G.quads(rng, ck.n(800, 12000)):
         streams.append(("oracle-quads", "let v = %s\n" % G.src(e)))
     # generated, clean (none of the known-defect constructs: an unknown defect cannot hide behind a known one)
     P.CLEAN[0] = True
-    for _ in range(ck.n(900, 9000)):
+    for _ in range(ck.n(600, 9000)):
         streams.append(("oracle-compilable", P.compilable(rng)))
-    for _ in range(ck.n(900, 9000)):
+    for _ in range(ck.n(600, 9000)):
         streams.append(("oracle-syntactic", P.syntactic(rng)))
-    for _ in range(ck.n(500, 5000)):
+    for _ in range(ck.n(300, 5000)):
         streams.append(("oracle-longlines", P.long_lines(rng)))
-    for _ in range(ck.n(900, 9000)):
+    for _ in range(ck.n(600, 9000)):
         streams.append(("oracle-exprs", "from t\nselect {v = %s}\n" % G.src(G.gen_expr(rng, rng.choice([2, 3, 3, 4]), {"clean": True}))))
     # generated, hostile (constructs of the known findings included)
     P.CLEAN[0] = False
-    for _ in range(ck.n(250, 2500)):
+    for _ in range(ck.n(150, 2500)):
         streams.append(("oracle-hostile", P.syntactic(rng)))
         streams.append(("oracle-hostile", P.compilable(rng)))
         streams.append(("oracle-hostile", "from t\nselect {v = %s}\n" % G.src(G.gen_expr(rng, 3, {"clean": False}))))
@@ -200,12 +216,39 @@ def run_oracle(ck, fmt_keywords):
     ck.coverage["oracle"] = {"sources": len(streams), "parsed": n_parsed, "compiled_ok": n_comp, "targets": TARGETS}
 
 
+def run_replay(ck, path, fmt_keywords):
+    """./check C14 --replay file : re-run the direct oracle on the source(s) of a replay file"""
+    d = json.load(open(path))
+    r = d.get("replay", d)
+    srcs = ([r["src"]] if "src" in r else []) + list(r.get("srcs", []))
+    answers = harness("c14", [{"src": s, "targets": TARGETS} for s in srcs])
+    for s, a in zip(srcs, answers):
+        ck.count("replay", s)
+        if "parse_err" in a:
+            print("replay: source does not parse: %r" % s)
+            continue
+        problems, feats, ids = judge(a, fmt_keywords)
+        print("replay: %r\n  fmt = %r\n  problems = %s, input classes = %s, attributed to = %s" % (s, a.get("fmt"), problems, sorted(feats), ids))
+        if problems:
+            case = {"src": s, "problems": problems, "input_classes": sorted(feats), "fmt": a.get("fmt")}
+            if ids:
+                for fid in ids:
+                    ck.disagreement("formatting changes the program", case, lambda c, fid=fid: fid)
+            else:
+                ck.disagreement("formatting changes the program", case, None)
+
+
 def run():
     ck = Check("C14", level="proof")
     from ..translate import gen_codegen
     info = gen_codegen.generate()
     pr = ck.prove()
     fmt_keywords = set(info.get("fmt_keywords") or O.FMT_KEYWORDS_FALLBACK) if "error" not in info else O.FMT_KEYWORDS_FALLBACK
+    import os
+    if os.environ.get("VERIF_REPLAY"):
+        run_replay(ck, os.environ["VERIF_REPLAY"], fmt_keywords)
+        ck.proof_broken_violation(found_input=any(not ni for _, _, ni in ck.violations))
+        ck.finish(TRUSTED, "replay of one recorded input through the direct oracle")
     # correspondence of the models with the implementation
     try:
         from . import c14_corr
